@@ -3,6 +3,7 @@ package dials
 import (
 	"context"
 	"errors"
+	"reflect"
 	"strconv"
 
 	"github.com/vimeo/dials/zzverif"
@@ -166,3 +167,77 @@ func HarnessC04NonBlocking() { c04scenario(2, false, false) }
 
 // HarnessC04Thorough: 3 blocking reports with reader.
 func HarnessC04Thorough() { c04scenario(3, true, true) }
+
+// ---- a pointer to an anonymous struct whose fields are all nil-able (its pointerified type is
+// the type itself), filled by a static source and by a watcher: rejected updates must not show
+// through configs handed out earlier, and a leaf a layer stops setting falls back.
+
+type hcfgN struct {
+	Limits *struct {
+		Max  *int
+		Mode *string
+	}
+	Bad bool
+}
+
+func (c *hcfgN) Verify() error {
+	if c.Bad {
+		return errInvalid
+	}
+	return nil
+}
+
+func HarnessC04Aliasing() {
+	def := hcfgN{}
+	mkLimits := func(t *Type, max *int, mode *string, bad bool) reflect.Value {
+		out := reflect.New(t.Type()).Elem()
+		if max != nil || mode != nil {
+			lf := out.FieldByName("Limits")
+			l := reflect.New(lf.Type().Elem())
+			if max != nil {
+				x := *max
+				l.Elem().FieldByName("Max").Set(reflect.ValueOf(&x))
+			}
+			if mode != nil {
+				x := *mode
+				l.Elem().FieldByName("Mode").Set(reflect.ValueOf(&x))
+			}
+			lf.Set(l)
+		}
+		if bad {
+			b := true
+			out.FieldByName("Bad").Set(reflect.ValueOf(&b))
+		}
+		return out
+	}
+	one := 1
+	static := &c03ssrc{mk: func(t *Type) reflect.Value { return mkLimits(t, &one, nil, false) }}
+	staticOnly := &c01static{build: static.mk}
+	watcher := &c03ssrc{mk: func(t *Type) reflect.Value { return mkLimits(t, nil, nil, false) }}
+	ctx, cancel := context.WithCancel(context.Background())
+	defer cancel()
+	d, err := Config(ctx, &def, staticOnly, watcher)
+	zzverif.Assert(err == nil, "C04 Config failed on a valid stack")
+	if err != nil {
+		return
+	}
+	v0 := d.View()
+	zzverif.Assert(v0.Limits != nil && v0.Limits.Max != nil && *v0.Limits.Max == 1 && v0.Limits.Mode == nil, "C01 the initial stack is not defaults < static source < watcher")
+	a, b := "a", "b"
+	e1 := watcher.wa.BlockingReportNewValue(ctx, mkLimits(watcher.t, nil, &a, false))
+	zzverif.Assert(e1 == nil, "C07 a valid blocking report failed")
+	v1, s1 := d.ViewVersion()
+	zzverif.Assert(v1.Limits != nil && v1.Limits.Mode != nil && *v1.Limits.Mode == "a" && *v1.Limits.Max == 1, "C01 after an update the view is not the stack of the latest values")
+	zzverif.Assert(v0.Limits.Mode == nil, "C02 an update wrote through to a config handed out earlier")
+	e2 := watcher.wa.BlockingReportNewValue(ctx, mkLimits(watcher.t, nil, &b, true))
+	zzverif.Assert(e2 != nil && errors.Is(e2, errInvalid), "C04 a blocking report of an invalid value did not return the Verify error")
+	v2, s2 := d.ViewVersion()
+	zzverif.Assert(v2 == v1 && s2.s == s1.s, "C04 a rejected update changed the view or the serial")
+	zzverif.Assert(v1.Limits.Mode != nil && *v1.Limits.Mode == "a" && !v1.Bad, "C04 a rejected update changed the contents of the visible config")
+	e3 := watcher.wa.BlockingReportNewValue(ctx, mkLimits(watcher.t, nil, nil, false))
+	zzverif.Assert(e3 == nil, "C07 a valid blocking report failed")
+	v3 := d.View()
+	zzverif.Assert(v3.Limits != nil && v3.Limits.Mode == nil && v3.Limits.Max != nil && *v3.Limits.Max == 1, "C01 a leaf the upper layer stopped setting did not fall back to the lower layers")
+	zzverif.Assert(*v1.Limits.Mode == "a", "C02 a later re-stack changed a config handed out earlier")
+	zzverif.Reached("c04-aliasing-end")
+}
